@@ -1,3 +1,4 @@
 -- root of the library: every model, proof and property file
 import SarpyModel.Props.C01
+import SarpyModel.Props.C07
 import SarpyModel.Drivers
